@@ -293,6 +293,18 @@ def scenarios_c05():
             ('post_inv', post_inv(E, 'DISK_GB', 7))):
         out.append(('retire E (solo consumer)|%s' % oname,
                     {'A': reshape_drop(E), 'B': ob}, solo))
+    # a database fault inside one of the racing requests: the duplicate-key
+    # race on a never-seen aggregate (retried by the server in a NEW
+    # transaction) while another request carrying the same generation commits
+    NEWAGG = 'cccccccc-cccc-4ccc-8ccc-ccccccccccc7'
+    for oname, ob in (
+            ('traits', put_traits(E, 'cur', ['CUSTOM_T1'])),
+            ('invs', put_invs(E, 'cur', INV2)),
+            ('aggs2', put_aggs(E, 'cur', [A2])),
+            ('claim', put_alloc(K3, {E: {'VCPU': 1}}, 'null'))):
+        out.append(('aggs new (duplicate-key race, retried)|%s' % oname,
+                    {'A': put_aggs(E, 'cur', [NEWAGG, A1]), 'B': ob}, None,
+                    {'A': ('DUP', 'placement_aggregates')}))
     out.append(('invs_empty|traits_empty (E)', {
         'A': put_invs(E, 'cur', {}), 'B': put_traits(E, 'cur', [])}))
     out.append(('invs_empty|aggs (E)', {
@@ -405,6 +417,11 @@ def scenarios_c07():
         'A': put_alloc(K3, {C: {'CUSTOM_A': 3}}, 'null'),
         'B': put_alloc(K2, {}, 'cur', 'proj-other', 'user-other',
                        'MIGRATION')}))
+    # (known finding D22) a writer carrying generation 0 for a consumer
+    # that does not exist yet, racing the request that auto-creates it
+    out.append(('new consumer: put:null vs put:0', {
+        'A': put_alloc(K3, {E: {'VCPU': 1}}, 'null', 'pA'),
+        'B': put_alloc(K3, {E: {'VCPU': 2}}, 0, 'pB')}))
     out.append(('claim vs delete of other consumer + inventory shrink', {
         'A': put_alloc(K3, {E: {'VCPU': 4}}, 'null'),
         'B': put_alloc(K1, {}, 'cur', world.PROJECT, world.USER),
@@ -576,8 +593,21 @@ def judge(pid, scen_name, reqs, d0, result, serial, res, use_serial=True):
         kind = 'no-serial-order-in-which-all-succeed' if not any(
             all(200 <= s < 300 for s in x['statuses']) for x in detail) \
             else 'final-state-differs-from-every-serial-order'
+        # mechanism: a success that carried a non-null generation for a
+        # consumer absent at the start, enabled by the consumer record that
+        # another - eventually failing - request had auto-created
+        mech = None
+        for n in succ:
+            for c, g in ((reqs[n]['tag'] or {}).get('cgen') or {}).items():
+                if g is not None and c not in d0.consumers and any(
+                        m != n and statuses[m] is not None and
+                        statuses[m] >= 400 and
+                        c in ((reqs[m]['tag'] or {}).get('cgen') or {})
+                        for m in names):
+                    mech = 'success-on-consumer-auto-created-by-failed-' \
+                           'request'
         res.violation(
-            '%s|%s|%s' % (pid, kind, scen_name),
+            '%s|%s|%s' % (pid, kind, mech or scen_name),
             '%s [%s] outcome %s: successes %s are not equivalent to any '
             'serial execution' % (scen_name, order, outcome, succ),
             dict(wit, serial=detail[:6]))
@@ -625,7 +655,17 @@ def judge(pid, scen_name, reqs, d0, result, serial, res, use_serial=True):
                     continue
                 before, after = seq[i - 1][2], seq[i][2]
                 if consumer_facet(before, c) != consumer_facet(after, c):
-                    changed_c.add((n, c))
+                    # a write = some step of this request changed the
+                    # consumer's allocations (an auto-created and removed
+                    # record alone - PUT {} for a consumer that holds
+                    # nothing - is no write)
+                    if any(seq[k][1] == n and
+                           consumer_facet(seq[k - 1][2], c)[1] !=
+                           consumer_facet(seq[k][2], c)[1]
+                           for k in range(1, len(seq))):
+                        changed_c.add((n, c))
+                    else:
+                        break
                     bcur = before.consumers.get(c)
                     bg = bcur['generation'] if bcur else None
                     if bg != cg:
@@ -706,8 +746,12 @@ def run_scenarios(pid, scenarios, spec, res, use_serial=True):
     import random
     from pv import sched
     from pv.histrun import Service
+    import oslo_db.api
+    oslo_db.api.time.sleep = lambda s: None
+    from pv.sqlwatch import SqlWatch
     svc = Service()
     sc = sched.Scheduler(svc.app)
+    watch = SqlWatch(svc.app.engine)
     thorough = spec['tier'] == 'thorough'
     try:
         svc.fresh()
@@ -718,11 +762,12 @@ def run_scenarios(pid, scenarios, spec, res, use_serial=True):
         for idx in range(spec['first'], spec['first'] + spec['count']):
             name, builders = scenarios[idx][:2]
             snap, d0 = base_snap, base_d0
-            if len(scenarios[idx]) > 2:
+            if len(scenarios[idx]) > 2 and scenarios[idx][2] is not None:
                 svc.app.restore(base_snap)
                 scenarios[idx][2](svc.client)
                 snap = svc.app.snapshot(svc.app.db_path + '.scen')
                 d0 = svc.dump()
+            faults = scenarios[idx][3] if len(scenarios[idx]) > 3 else None
             reqs = {n: b(d0) for n, b in builders.items()}
             serial = SerialCache(svc, snap, reqs)
             rng = random.Random('%s/%s/%s' % (pid, spec['seed'], name))
@@ -731,7 +776,31 @@ def run_scenarios(pid, scenarios, spec, res, use_serial=True):
                 svc.app.restore(snap)
                 fns = {n: (lambda r=r: svc.client.send(r, record=False))
                        for n, r in reqs.items()}
-                return sc.run(fns, prefix)
+                if not faults:
+                    return sc.run(fns, prefix)
+                import sqlite3
+                import threading
+                fired = set()
+
+                def hook(phase, ekind, text, params, conn, idx):
+                    if phase != 'before' or ekind != 'stmt':
+                        return
+                    w = sc.workers.get(threading.get_ident())
+                    if w is None or w.name not in faults or \
+                            w.name in fired:
+                        return
+                    kind, table = faults[w.name]
+                    if text.lstrip().upper().startswith(
+                            'INSERT INTO ' + table.upper()):
+                        fired.add(w.name)
+                        res.count('faults_injected_in_schedules')
+                        watch.inject_next = sqlite3.IntegrityError(
+                            'UNIQUE constraint failed: %s.uuid' % table)
+                watch.start(hook)
+                try:
+                    return sc.run(fns, prefix)
+                finally:
+                    watch.stop()
             outcomes = set()
             n_sched = 0
             three = len(reqs) >= 3
@@ -836,7 +905,7 @@ def run_invariants(pid, scenarios, spec, res, per_state=None, per_step=None,
         for idx in range(spec['first'], spec['first'] + spec['count']):
             name, builders = scenarios[idx][:2]
             snap, d0 = base_snap, base_d0
-            if len(scenarios[idx]) > 2:
+            if len(scenarios[idx]) > 2 and scenarios[idx][2] is not None:
                 svc.app.restore(base_snap)
                 scenarios[idx][2](svc.client)
                 snap = svc.app.snapshot(svc.app.db_path + '.scen')
@@ -884,5 +953,110 @@ def run_invariants(pid, scenarios, spec, res, per_state=None, per_step=None,
                     at_end(d0, final, reqs, results, wit)
                 res.seen('conc', name, order[:24])
             res.count('concurrent_scenarios')
+    finally:
+        svc.close()
+
+
+# ---------------------------------------------------------------------------
+# random request tuples on random reachable states (C05/C06/C07, mostly for
+# the thorough tier): "from every reachable start state in a bounded scope"
+# ---------------------------------------------------------------------------
+def auto_tag(req):
+    """derive the carried provider / consumer generations from a request"""
+    from pv.routes import classify
+    name, params, _ = classify(req['path'])
+    b = req['body']
+    tag = dict(req['tag'] or {})
+    m = req['method']
+    try:
+        if m == 'PUT' and name in ('invs', 'inv', 'rp_traits') or (
+                m == 'PUT' and name == 'rp_aggs' and isinstance(b, dict)):
+            tag['pgen'] = (params['uuid'], b['resource_provider_generation'])
+        elif name == 'reshaper':
+            tag['pgens'] = [(p, x['resource_provider_generation'])
+                            for p, x in b['inventories'].items()]
+            tag['cgen'] = {c: e.get('consumer_generation')
+                           for c, e in b['allocations'].items()}
+        elif name == 'alloc' and m == 'PUT' and 'consumer_generation' in b:
+            tag['cgen'] = {params['consumer']: b['consumer_generation']}
+        elif name == 'allocs' and m == 'POST':
+            tag['cgen'] = {c: e['consumer_generation'] for c, e in b.items()
+                           if 'consumer_generation' in e}
+    except (KeyError, TypeError, AttributeError):
+        pass
+    req['tag'] = tag
+    return req
+
+
+RANDOM_WEIGHTS = {
+    'post_rp': 1, 'put_rp': 2, 'delete_rp': 2, 'put_invs': 8, 'post_inv': 2,
+    'put_inv': 5, 'delete_inv': 3, 'delete_invs': 1, 'put_trait': 0,
+    'delete_trait': 1, 'put_rp_traits': 5, 'delete_rp_traits': 1,
+    'put_rp_aggs': 4, 'post_rc': 0, 'put_rc': 0, 'delete_rc': 1,
+    'put_alloc': 14, 'post_allocs': 8, 'delete_alloc': 0, 'reshaper': 5,
+    'read': 0}
+
+
+def run_random(pid, spec, res, use_serial=True):
+    """spec: first/count = range of random cases; every case = a random
+    history building a state + a tuple of 2-3 write requests valid for it."""
+    import random
+    from pv import sched
+    from pv.gen.history import HistoryGen, Names
+    from pv.histrun import Service
+    svc = Service()
+    sc = sched.Scheduler(svc.app)
+    thorough = spec.get('tier') == 'thorough'
+    try:
+        for case in range(spec['first'], spec['first'] + spec['count']):
+            rng = random.Random('rand/%s/%s/%s' % (pid, spec['seed'], case))
+            svc.fresh()
+            names = Names(rng, n_rp=5, n_cons=3)
+            build = HistoryGen(rng, names, p_bad=0.05,
+                               versions=['1.39', '1.37', '1.38'])
+            d = svc.dump()
+            for _ in range(rng.randint(15, 40)):
+                svc.client.send(build.next(d))
+                d = svc.dump()
+            snap = svc.app.snapshot(svc.app.db_path + '.rand')
+            d0 = d
+            tgen = HistoryGen(rng, names, RANDOM_WEIGHTS, p_bad=0.1,
+                              versions=['1.39'])
+            n = rng.choice([2, 2, 2, 3])
+            reqs = {}
+            for k in 'ABC'[:n]:
+                r = tgen.next(d0)
+                tries = 0
+                while r['method'] == 'GET' and tries < 5:
+                    r = tgen.next(d0)
+                    tries += 1
+                reqs[k] = auto_tag(r)
+            name = ' | '.join('%s %s' % (r['method'],
+                                         r['tag'].get('op', '?'))
+                              for r in reqs.values())
+            serial = SerialCache(svc, snap, reqs)
+
+            def run(prefix):
+                svc.app.restore(snap)
+                fns = {k: (lambda r=r: svc.client.send(r, record=False))
+                       for k, r in reqs.items()}
+                return sc.run(fns, prefix)
+            outcomes = set()
+            for prefix, result, fresh in sched.explore(
+                    run, max_preemptions=2,
+                    max_schedules=120 if thorough else 40, rng=rng,
+                    random_extra=4):
+                res.count('schedules')
+                res.count('random_tuple_schedules')
+                oc = judge(pid, 'random: ' + name, reqs, d0, result, serial,
+                           res, use_serial=use_serial)
+                outcomes.add(oc)
+                res.seen('random', name, result['order'][:20], oc)
+            res.count('random_tuples')
+            if len(outcomes) > 1:
+                res.count('scenarios_with_both_outcome_orders')
+            res.sample({'random_tuple': name,
+                        'requests': {k: r.brief() for k, r in reqs.items()},
+                        'outcome_vectors': sorted(outcomes)}, cap=5)
     finally:
         svc.close()
